@@ -37,6 +37,18 @@ PROP = {
         "GunYu.Props.C03.hash_unsplit_raw_is_encode",
         "GunYu.Props.C03.fanOut_same_key",
         "GunYu.Props.C03.stream_roundtrip_partial",
+        "GunYu.Props.C03.stream_roundtrip",
+        "GunYu.Props.C03.stream_expand_roundtrip",
+        "GunYu.Props.C03.sound_test_sound",
+        "GunYu.Props.C03.raw_is_encode_opaque",
+        "GunYu.Props.C03.next_opaque_entry",
+        "GunYu.Props.C03.next_skips_module_aux",
+        "GunYu.Props.C03.full_sync_streams",
+        "GunYu.Props.C03.carried_carriedS",
+        "GunYu.Props.C03.restore_fallback_path",
+        "GunYu.Props.C03.fanout_parallel_streams",
+        "GunYu.Props.C03.stream_pel_logical",
+        "GunYu.Props.C03.expand_path_existing",
         "GunYu.Props.C03.restore_path",
         "GunYu.Props.C03.expand_path",
         "GunYu.Props.C03.header_roundtrip",
@@ -91,6 +103,18 @@ PROP = {
             "(max observed lateness is in the stats: max_expiry_lateness_ms), so a more exact implementation is not flagged. "
             "A parse has no wall-clock limit while it makes progress (bytes read / entries / commands); only 120 s without "
             "any progress on a well-formed file is reported (parser-hang). "
+            "Session 4: every generated stream that passes the VERIFIED soundness test (Lean StreamE.soundB, "
+            "sound_test_sound) is additionally compared with the SPECIFICATION side of the new theorems: op `svc` (C03dec) = "
+            "the real StreamParser.ExecCmd output of the key vs Lean StreamE.cmds (XADD / MAXLEN-0 trick / XSETID / XGROUP "
+            "CREATE [ENTRIESREAD] / XCLAIM ... TIME RETRYCOUNT JUSTID FORCE), op `svv` (C03replay) = the stream the real "
+            "replay (sendRdb -> rdbrestore -> target double) leaves, entries / last id / counters / groups in creation order / "
+            "pending entries in XCLAIM order, vs Lean StreamE.xval - the value stream_roundtrip and full_sync_streams end in. "
+            "The stream generator now also produces groups whose entries-read is unknown (-1, saved as 2^64-1), groups whose "
+            "last-delivered id lies beyond the stream's last id, and counts its shapes (stream_ver_*, stream_empty, "
+            "stream_with_deleted_entries, stream_ids_above_2^63, stream_with_pending_entries, "
+            "stream_with_consumer_without_pending, stream_group_entries_read_unknown, ...; replayed_* = the ones that went "
+            "through the expansion path of the real replay). Routing: the l2 model routes an entry by the key it is REPLAYED "
+            "to (dstKey; /repo 630424b). "
             "distinct_nontrivial = (kind, value-shape) classes seen",
     "trusted": [
         "RDB on-disk encodings as transcribed in Model/Rdb/{Str,Ziplist,Listpack,Stream,Enc}.lean (encoders = specification: "
@@ -98,7 +122,19 @@ PROP = {
         "cross-checked against the Redis-produced fixture blobs the repo carries (decoder model = real decoder on all 22)",
         "CRC-64/Jones bitwise definition (check value 0xe9c6d914c4b8d9ca proved) and Redis verifyDumpPayload as transcribed",
         "Redis command semantics used as replay oracle (Model/RedisSem.lean) and the Go target double pkg/vfc03/target.go "
-        "(SET/RPUSH/SADD/ZADD/HSET/XADD/XSETID/XGROUP CREATE/XCLAIM/DEL/PEXPIRE/RESTORE incl. BUSYKEY, integer-argument parsing)",
+        "(SET/RPUSH/SADD/ZADD/HSET/XADD/XSETID/XGROUP CREATE/XCLAIM/DEL/PEXPIRE/RESTORE incl. BUSYKEY, integer-argument parsing); "
+        "stream commands follow t_stream.c (review r4: oracle and double made faithful, rules cited in Model/RedisSem.lean "
+        "and pkg/vfc03/target.go): XADD with an explicit id needs an id above the stream's last id (0-0 for a new key) and at "
+        "least one field pair, MAXLEN 0 leaves no entry; XSETID: strict ids, ENTRIESADDED a non-negative long long, id >= "
+        "MAXDELETEDID, on a non-empty stream id >= top entry and ENTRIESADDED >= length, a 0-0 MAXDELETEDID leaves the field; "
+        "XGROUP CREATE: strict id, BUSYGROUP, ENTRIESREAD a long long >= -1; XGROUP CREATECONSUMER (6.2+); XCLAIM key group "
+        "consumer 0 id TIME t RETRYCOUNT n JUSTID FORCE [LASTID id] with the option words inspected: for an id that is NOT an "
+        "entry of the stream no pending entry is created (all versions) and an existing one is dropped (7.0+), otherwise the "
+        "pending entry is (re)created with owner / time / count and the consumer is created on demand. The double also clamps "
+        "a TIME above its clock to now (counted); the Lean oracle has no clock and stores the argument (see assumptions). "
+        "Forms the tool never sends (other min-idle-time, several ids, IDLE, no JUSTID/FORCE) are outside the oracle (none)",
+        "the version-aware oracle RedisSem.applyCmdsV (Model/Rdb/TargetV.lean): RESTORE of a value type the target cannot "
+        "load = error reply without effect (typeLoadable, a transcription)",
         "strconv float formatting/parsing (float64 scores are carried by bit pattern; old-format zset scores modelled for "
         "integers < 2^53, inf, nan only), Go channel FIFO order per worker, testing/synctest virtual clock",
     ],
@@ -126,14 +162,56 @@ PROP = {
         "counted, not judged); under replaceHashTag the rewritten keys are kept distinct per target DB (colliding target "
         "keys are the user's responsibility)",
         "which value types a target version can RESTORE (double: 4.x <= 14, 5/6 <= 15, 7.x <= 21, 8.x all) is a transcription",
+        "delivery times of pending entries are not in the future of the target's clock (then XCLAIM's TIME clamp is the "
+        "identity; the generator's times lie before the replay instant, the double counts clamped ones: "
+        "xclaim_time_above_target_clock_clamped = 0)",
+        "streams: stream_roundtrip / full_sync_streams assume `sound` (tested per input by the verified StreamE.soundB; a generated "
+        "stream that fails it - in practice: an id delta that wraps modulo 2^64 inside one listpack, i.e. sequence numbers 2^63 "
+        "apart - is skipped by the svc/svv ops and counted stream_not_sound_skipped; the model's wrap64 and the l1/l2 diff + "
+        "monitor still cover it); the entries-read value sent for a type-15 stream (Redis 5/6 source, target >= 7) is the tool's "
+        "ESTIMATE as the spec transcribes it (first id taken as 0-0: a group at 0-0 of a non-empty stream gets 1 where a server "
+        "loading the same file computes 0) - entries-read is not named by the property; the target double refuses ENTRIESREAD / "
+        "XSETID counters from a target < 7 (as Redis 5/6 do)",
     ],
     "partial": [
-        "stream_roundtrip_partial: for streams the theorem covers the ENTRIES (every listpack node -> one XADD per live entry "
-        "with exact id and field/value list: SAMEFIELDS, deleted entries, every integer width, raw/LZF blob; D11 repaired). "
-        "Not yet proved (stream_roundtrip_stmt): length/last-id/first-id/max-deleted/entries-added -> XSETID, consumer groups "
-        "and PELs -> XGROUP/XCLAIM, IDMP skipping, and the replay of those commands through the oracle; these are covered "
-        "by encoder spec + decoder model + correspondence + the keyspace monitor only",
-        "full_sync_partial (PROVED for the datasets below; the full statement is the def full_sync_stmt): ONE theorem over a "
+        "stream_roundtrip (CLOSED, was stream_roundtrip_stmt): for every well-formed and `sound` stream description of RDB "
+        "type 15/19/21/26, every target version: ExecCmd on the serialization = StreamE.cmds (XADD per live entry, MAXLEN-0 "
+        "trick iff empty, XSETID [ENTRIESADDED MAXDELETEDID], per group XGROUP CREATE [ENTRIESREAD signed] + one XCLAIM per "
+        "consumer PEL entry with TIME/RETRYCOUNT of the group's PEL, JUSTID FORCE) and the FAITHFUL oracle (r4) turns them, in "
+        "any keyspace not holding the key, into exactly StreamE.xval: entries+ids, last id, entries-added, max-deleted id, "
+        "groups with last-delivered id, entries-read, consumers, and the pending entries with owner/time/count RESTRICTED TO "
+        "THE IDS THAT ARE STILL ENTRIES OF THE STREAM. LOST on the expansion path, kept by RESTORE, stated by the shape of "
+        "xval: (a) pending ids whose entry was deleted/trimmed - ordinary production data; XCLAIM FORCE is a no-op for them, "
+        "no command recreates them, Redis' own AOF rewrite loses them the same way (generated now: "
+        "stream_with_pending_id_of_deleted_or_trimmed_entry, observation counter xclaim_for_an_id_that_is_not_an_entry...); "
+        "(b) a consumer all of whose pending ids are such; (c) a consumer with an EMPTY PEL = KNOWN FINDING C03-F1 (the tool "
+        "emits no XGROUP CREATECONSUMER; reported by the monitor as stream-idle-consumer-dropped with a replay; repair not "
+        "applied because the repo's own TestStream pins the command sequence; spec: consumersX vs consumersIdeal); (d) "
+        "consumer seen-time/active-time, the first-id field (recomputed by the target), the IDMP state of type 26; LASTID "
+        "is not sent with XCLAIM. `sound` = what a Redis server guarantees (ids without 64-bit wrap, increasing, above 0-0, "
+        "none above the last id; length = live entries; every entry has a field; entries-added a long long >= length; "
+        "max-deleted id <= last id; entries-read >= -1; delivery times long longs; distinct group and consumer names; a "
+        "pending id owned by one consumer; counts < 2^64) - a hypothesis, tested per generated input by the verified "
+        "StreamE.soundB; the reviewer's counter-instance (entries-added 1 < length 3, max-deleted 9-9 > last 1-4) is not "
+        "`sound`, its dangling pending ids are handled by the restriction. expand_path_existing (NEW): the same onto a key "
+        "the target ALREADY holds (probe + DEL + expansion + PEXPIRE, any value kind incl. streams): the old value - a stream "
+        "with a higher last id, groups, TTL - is gone (entry level; generator: pre_existing_stream_with_group_at_a_stream_key; "
+        "the whole-file composition with pre-existing keys stays C20's). The PEL is stated as a list in consumer "
+        "order (the order the XCLAIMs are issued; a server keeps it sorted by id): stream_pel_logical proves it a permutation "
+        "of the group's PEL as the description gives it (every record with time, count and its one owner), given "
+        "pelPartition (one record per id; the consumers' PELs partition the group's)",
+        "full_sync_streams (PROVED, session 4): full_sync_partial's conclusion for datasets WITH stream values (types "
+        "15/19/21/26, RESTORE payload byte-exact or expanded into StreamE.xval), module values of type 7 (RESTORE only; a "
+        "module value that cannot be RESTOREd makes the tool refuse the sync by design and is excluded by carriedS) and module "
+        "aux items under the skip policy (Next lemma for skipModuleValue over modulePayload: next_skips_module_aux; under the "
+        "fail policy the snapshot is refused by design). Its remaining hypotheses are those of full_sync_partial: hload, "
+        "htick, hrht, hdb, hdistinct, hpar. restore_fallback_path (PROVED, entry level): the `Bad data format` fall-back "
+        "for one unsplit value of any string/list/set/zset/hash encoding or a stream, on the version-aware oracle applyCmdsV "
+        "(the refused RESTORE has no effect, then probe + expansion + PEXPIRE leave value and TTL). STILL OPEN = def "
+        "full_sync_stmt: the whole-file theorem WITHOUT hload on applyReqsV (HoldsV: a refused value arrives expanded) - the "
+        "composition of restore_fallback_path over a file is not proved; also open: ReplaceHashTag, advancing clock, streams "
+        "under more than one worker (fanout_parallel carries the other kinds only)",
+        "full_sync_partial (PROVED for the datasets below; kept as the statement the parallel theorems build on): ONE theorem over a "
         "whole file - sendRdb(parseRdb(rdbFile f)) with one worker, its request log applied to the multi-database oracle "
         "(RedisSem.applyReqs: SELECT, SCRIPT/FUNCTION = no keyspace effect, keyspace commands on the selected DB) from empty "
         "databases leaves in every target DB exactly the unfiltered keys of f mapped there, in file order, each with its value "
@@ -141,10 +219,9 @@ PROP = {
         "expiry - for any RDB version 1..13, any number of DBs, AUX / SELECTDB / RESIZEDB / slot-info / function items "
         "between keys, EXPIRETIME(_MS)/IDLE/FREQ, every string/list/set/zset/hash encoding, hash tables split into chunks at "
         "ANY threshold, any target version/fnExists/RESTORE on-off/MaxProtoBulkLen/TargetDb/DbMap/clock reading/DB-key-slot "
-        "filter. NOT carried (hypotheses of the theorem): stream values and module values (type 7) and module aux items "
-        "(missing: stream_roundtrip_stmt - XSETID/XGROUP/XCLAIM through the oracle - and a Next lemma for skipModuleValue "
-        "over modulePayload); the `Bad data format` fall-back (hload: with RESTORE on the target loads the value types; the "
-        "oracle has no error replies); ReplaceHashTag (hrht); a clock that advances during the replay (htick: tick = 0; "
+        "filter. NOT carried by THIS theorem (see full_sync_streams for them): stream values, module values (type 7), module "
+        "aux items; hypotheses: the `Bad data format` fall-back (hload: with RESTORE on the target loads the value types); "
+        "ReplaceHashTag (hrht); a clock that advances during the replay (htick: tick = 0; "
         "ttl_absolute holds for every reading); DB maps that send a DB to a negative index (hdb) or merge DBs holding the "
         "same key (hdistinct); more than one worker (hpar, see fanout_parallel_partial). Those stay covered by "
         "correspondence and the keyspace monitor",
@@ -154,7 +231,11 @@ PROP = {
         "succeeds and leaves under every key of every DB the value and TTL of the snapshot-order result, which holds exactly "
         "the expected keyspace (fanout_workers_irrelevant: worker count irrelevant for ANY entries; oracle_keys_commute: "
         "plain commands on different keys commute; fanout_parallel_partial: the snapshot-order schedule; fanout_parallel: "
-        "all interleavings). Open: the same for streams / module values (not carried, see full_sync_partial); the model "
+        "all interleavings). Session 4: fanout_workers_irrelevant now holds for entries of EVERY kind, streams included "
+        "(execStream_names: on any buffer the stream expansion emits XADD/XSETID/XGROUP/XCLAIM only), and "
+        "fanout_parallel_streams gives the snapshot-order schedule for datasets with streams / module values / module aux "
+        "(full_sync_streams for parallel = n). Open: ALL interleavings for streams (XGROUP / XCLAIM are not in plainNames: no "
+        "commutation lemma for them); the model "
         "computes all logs in ONE sequential fold with a shared existence table (what the key-exists probes would answer) - "
         "that the replies a worker really gets under an interleaving equal that table is argued (a key belongs to one "
         "worker) but not part of the theorem; a worker that fails cancels the others (not modelled); fanOut_keeps_order / "
@@ -162,10 +243,13 @@ PROP = {
         "existing_key_partial: expand_path / expand_path_final / expand_roundtrip_frame are for a key that does not exist on "
         "the target; the probe+DEL branch for an existing key under `replace` is in the model and the correspondence "
         "(pre-populated keys) but its theorem belongs to C20; raw_is_encode has no counterpart for streams and modules "
-        "(their RESTORE payload is tied by correspondence + the independent CRC only)",
+        "(CLOSED session 4: raw_is_encode_opaque - ReadBuffer consumes exactly the serialization of a stream / module value, "
+        "so their RESTORE payload is byte for byte type + serialization + footer)",
         "zset_v1_scores_partial: RDB_TYPE_ZSET (type 3, Redis < 4.0) ASCII scores are modelled for integers below 2^53, inf, nan",
         "zipmap_partial: type 9 (Redis < 2.6) modelled for < 254 items of < 253 bytes",
-        "module values (type 6/7) are opaque: RESTORE path only, expansion refused by the code; module aux skipped/refused per policy",
+        "module values: type 7 is carried by full_sync_streams on the RESTORE path (expansion refused by the code = sync "
+        "fails, excluded); type 6 (module v1) is refused by the parser (`does not support module type 1`), not in the model's "
+        "datasets; module aux skipped/refused per policy (skip proved, fail = refused)",
     ],
     "driver": "drv_C03",
 }
@@ -176,12 +260,17 @@ MANIFEST = {
             "decode to their contents for every entry encoding, width and sign; for every string/list/set/zset/hash encoding "
             "the expansion replayed into an empty key rebuilds the source value (expand_roundtrip); teed bytes = "
             "serialization (raw_is_encode); hash tables split at ANY threshold rebuild the same hash, every chunk keeps "
-            "key/DB/expiry (chunked_roundtrip); TTL = absolute expiry; DB mapping. Decoder, expansion and replay models are "
+            "key/DB/expiry (chunked_roundtrip); TTL = absolute expiry; DB mapping; streams: ExecCmd = XADD/XSETID/XGROUP/XCLAIM as specified and the oracle "
+            "rebuilds entries, last id, counters, groups and PELs (stream_roundtrip); ReadBuffer consumes exactly a stream / "
+            "module payload (raw_is_encode_opaque); full sync over whole files with streams, module values, module aux items "
+            "(full_sync_streams); Bad-data-format fall-back per entry (restore_fallback_path). Decoder, expansion and replay models are "
             "tied to pkg/rdb, pkg/redis/types, pkg/rdbrestore and syncer.sendRdb by differential correspondence on snapshots "
             "the Lean encoder generates + the repo's Redis-produced fixtures, with a keyspace-reconstructing monitor. "
             "Five defects found by the check and fixed (D8, D9, D10, D11, N1).",
     "note": "trusted: Lean kernel, RDB format + Redis command semantics as transcribed, target double, extractor, harness; "
-            "streams and the whole-file composition are covered by correspondence + monitor, not yet by a theorem (partial)",
+            "session 4: streams (stream_roundtrip), module values / module aux and the whole-file composition with them "
+            "(full_sync_streams) are theorems; the Bad-data-format fall-back is proved per entry (restore_fallback_path), its "
+            "whole-file composition is open (full_sync_stmt)",
     "technique": "Lean 4 proof (induction over encodings, GF(2)-linearity + 256-case kernel decide for CRC64) + generated-input "
                  "differential correspondence + independent Go oracle",
 }
